@@ -9,7 +9,8 @@ import json, os, re
 from fractions import Fraction as Fr
 from core import *
 
-NEEDS = ["PyLib", "AutoEquiv", "Auto", "AutoProofs", "Corr", "Gen_auto_param_indices"]
+NEEDS = ["PyLib", "Auto", "AutoImpl", "AutoEquiv", "AutoProofs", "Corr", "Gen_auto_param_indices"]
+IMPL_FILES = ["PyLib", "Auto", "AutoImpl", "Corr", "Gen_auto_param_indices"]   # what the Coq evaluation of Impl needs
 FINDING_GUARD = "all_values_f32_exact"
 NPARX = 40          # length of the PAR array handed to the compiled routines
 
@@ -214,8 +215,8 @@ def nontrivial(case):
 
 # ---------------------------------------------------------------------------------------------- model side
 HEADER = """From Coq Require Import List ZArith QArith Qcanon Bool String.
-From PV Require Import PyLib AutoEquiv Auto Corr.
-From PVG Require Import Gen_auto_param_indices.
+From PV Require Import PyLib Auto Corr.
+IMPL_IMPORT
 Import ListNotations.
 Open Scope Z_scope.
 Definition finalize (m : model) (e : emission) : emission :=
@@ -234,11 +235,19 @@ Definition ok_with (em : list string -> model -> emission) (stp : emission -> li
   match o_stp o with None => true | Some (par, y) =>
     qs_eqb (array_of (List.length par) (fst (stp e))) par && qs_eqb (array_of (List.length y) (snd (stp e))) y end &&
   match o_vf o with None => true | Some (par, y, eqs, dy) => qs_eqb (vf vars m par y eqs) dy end.
-Definition okI := ok_with (fun _ m => emit m) compiled_stpnt (fun _ m => exported_vf (emit m)).
+IMPL_OK
 Definition okS := ok_with spec_emit spec_stpnt (fun vars m => spec_vf (spec_params vars (m_args m) (m_ret m))).
 Definition guard_wf (c : case) := let '(vars, m, o) := c in wf vars m.
 Definition guard_f32 (c : case) := let '(vars, m, o) := c in all_values_f32_exact m.
 """
+
+IMPL_ON = ("From PV Require Import AutoImpl.", "Definition okI := ok_with (fun _ m => emit m) compiled_stpnt (fun _ m => exported_vf (emit m)).")
+# when the E2 translation failed closed (or Auto/AutoImpl no longer compile) there is no Impl to evaluate: Spec only
+IMPL_OFF = ("", "Definition okI (c : case) := true.")
+def header(ctx):
+    off = ctx.proof and set(ctx.proof["failed"]) & set(IMPL_FILES)
+    a, b = IMPL_OFF if off else IMPL_ON
+    return HEADER.replace("IMPL_IMPORT", a).replace("IMPL_OK", b)
 
 def cpair(a, b): return f"({a}, {b})"
 def emission_term(o, f):
@@ -311,7 +320,7 @@ def model_compare(ctx, cases, outs, tag):
         body = ("Definition cases : list case := " + clist(terms) + ".\n"
                 "Eval vm_compute in (mismatches okI cases).\nEval vm_compute in (mismatches okS cases).\n"
                 "Eval vm_compute in (mismatches guard_wf cases).\nEval vm_compute in (mismatches guard_f32 cases).\n")
-        ls = parse_nat_lists(coq_eval(ctx, f"c18_{tag}_{s}", HEADER, body))
+        ls = parse_nat_lists(coq_eval(ctx, f"c18_{tag}_{s}", header(ctx), body))
         assert len(ls) == 4, ls
         for k in range(4):
             res[k] += [s + i for i in ls[k]]
@@ -326,7 +335,7 @@ def diagnostic(ctx, case):
         body = (f"Definition c : case := {coq_case(case, r)}.\nDefinition e := let '(vars, m, o) := c in finalize m (spec_emit vars m).\n"
                 "Eval vm_compute in (e_sig e, e_call e, e_parnames e, e_dfdp e, e_ndim e, e_npar e).\n"
                 "Eval vm_compute in (map (fun t => (fst (fst t), this (snd (fst t)), snd t)) (e_stpnt e)).\n")
-        d["specified_emission"] = coq_eval(ctx, "c18_show", HEADER, body)[:5000]
+        d["specified_emission"] = coq_eval(ctx, "c18_show", header(ctx), body)[:5000]
         d["harness_side"] = harness_side(case, r)
     except Exception as e:
         d["specified_emission"] = f"(model evaluation failed: {e})"
@@ -361,17 +370,30 @@ def shrink(ctx, case):
 
 # ---------------------------------------------------------------------------------------------- E2 validation streams
 HEADER_E2 = """From Coq Require Import List ZArith Bool String.
-From PV Require Import PyLib AutoEquiv LabelGen Corr.
-From PVG Require Import Gen_auto_param_indices Gen_generate_unique_label.
+From PV Require Import PyLib Auto Corr.
+E2_IMPORT
 Import ListNotations.
 Open Scope Z_scope.
 Definition zl_eqb (a b : list Z) := if list_eq_dec Z.eq_dec a b then true else false.
 Definition sl_eqb (a b : list string) := if list_eq_dec string_dec a b then true else false.
-Definition ok_gen (c : nat * (Z * Z) * list Z) := let '(n, r, out) := c in zl_eqb (auto_param_indices (seq 0 n) r) out.
+E2_GEN
 Definition ok_closed (c : nat * (Z * Z) * list Z) := let '(n, r, out) := c in zl_eqb (slots n) out.
-Definition ok_lab (c : dict * list string * list string * list string) := let '(tab, req, out, keys) := c in
-  match requests tab req with Some (rs, tab') => sl_eqb rs out && sl_eqb (py_keys tab') keys | None => false end.
+E2_LAB
 """
+
+E2_GEN = ("From PVG Require Import Gen_auto_param_indices.",
+          "Definition ok_gen (c : nat * (Z * Z) * list Z) := let '(n, r, out) := c in zl_eqb (auto_param_indices (seq 0 n) r) out.")
+E2_LAB = ("From PVG Require Import Gen_generate_unique_label.\nFrom PV Require Import LabelGen.",
+          "Definition ok_lab (c : dict * list string * list string * list string) := let '(tab, req, out, keys) := c in\n"
+          "  match requests tab req with Some (rs, tab') => sl_eqb rs out && sl_eqb (py_keys tab') keys | None => false end.")
+
+def header_e2(ctx):
+    ok, failed, log = build_coq(["LabelGen"])      # LabelGen.v = Gen_generate_unique_label + the request state machine (definitions)
+    lab = not failed
+    gen = not (ctx.proof and set(ctx.proof["failed"]) & {"Gen_auto_param_indices", "PyLib", "Auto"})
+    h = HEADER_E2.replace("E2_IMPORT", (E2_GEN[0] if gen else "") + "\n" + (E2_LAB[0] if lab else ""))
+    h = h.replace("E2_GEN", E2_GEN[1] if gen else "Definition ok_gen (c : nat * (Z * Z) * list Z) := true.")
+    return h.replace("E2_LAB", E2_LAB[1] if lab else "Definition ok_lab (c : dict * list string * list string * list string) := true.")
 
 def e2_streams(ctx):
     """returns (cases, results, bad_translator, bad_closed_form): bad_translator = the regenerated Gallina function disagrees
@@ -394,7 +416,7 @@ def e2_streams(ctx):
                 f"{clist([cstr(s) for s in o['out']])}, {clist([cstr(k) for k, _ in o['table']])})" for c, o in lb])
     body = (f"Definition s := {t1}.\nDefinition l := {t2}.\nEval vm_compute in (mismatches ok_gen s).\n"
             "Eval vm_compute in (mismatches ok_closed s).\nEval vm_compute in (mismatches ok_lab l).\n")
-    ls = parse_nat_lists(coq_eval(ctx, "c18_e2", HEADER_E2, body))
+    ls = parse_nat_lists(coq_eval(ctx, "c18_e2", header_e2(ctx), body))
     assert len(ls) == 3, ls
     crashed = [c for c, o in zip(cases, outs) if "err" in o]
     bad_tr = [sl[i][0] for i in ls[0]] + [lb[i][0] for i in ls[2]] + crashed
